@@ -130,6 +130,26 @@ def _shipped_body(ctx):
                 ctx.violation(f'{name}: the action space built from the listed actions {listed} is {got_order}', {'file': name, 'listed': listed})
         except Exception as e:  # noqa: BLE001
             ctx.violation(f'{name}: a permuted action list does not build: {type(e).__name__}', {'file': name, 'listed': listed})
+        # the two space sections are independent declarations: each built space lists exactly what ITS section lists (here the state-space
+        # section is made the richer one, then the observation-space section)
+        for rich, poor in (('state_space', 'observation_space'), ('observation_space', 'state_space')):
+            v2 = copy.deepcopy(before)
+            extra_t = [n for n in ('Door', 'Key', 'Beacon', 'Telepod', 'MovingObstacle') if n not in v2[rich]['objects']][:2]
+            extra_c = [c for c in ('YELLOW', 'BLUE', 'GREEN', 'RED') if c not in v2[rich]['colors']][:2]
+            v2[rich]['objects'] = list(v2[rich]['objects']) + extra_t
+            v2[rich]['colors'] = list(v2[rich]['colors']) + extra_c
+            try:
+                e2 = factory_env_from_data(copy.deepcopy(v2))
+                d2 = envs.desc_of_data(v2)
+                for label, sp, tys, cols in (('state', e2.state_space, d2['state_types'], d2['state_colors']), ('observation', e2.observation_space, d2['obs_types'], d2['obs_colors'])):
+                    got_t = [t.type_index() for t in sp.object_types]
+                    got_c = sorted(int(c.value) for c in sp.colors)
+                    ctx.case(('space-sections', name, rich, label), True, None)
+                    if got_t != list(tys) or got_c != sorted(set(cols) | {0}):
+                        ctx.violation(f'{name}: with a richer {rich} section, the built {label} space lists types {got_t} / colours {got_c}; its section describes types {list(tys)} / colours {sorted(set(cols) | {0})}',
+                                      {'file': name, 'richer_section': rich, 'added_types': extra_t, 'added_colours': extra_c})
+            except Exception as e:  # noqa: BLE001
+                ctx.violation(f'{name}: a configuration whose {rich} section lists more than its {poor} section does not build: {type(e).__name__}: {e}', {'file': name, 'added_types': extra_t})
         if [envs.ACTS.index(a) for a in env1.action_space.actions] != desc['actions']:
             ctx.violation(f'{name}: the action space is not the listed actions in the listed order', {'file': name})
         # building from the FILE is repeatable too: two builds are two independent environments
